@@ -58,6 +58,10 @@ BY_CHECK = {
         "TLX.OnCode.C01.decrypt_tls12_aead_unprotect_protect",
         "TLX.OnCode.C01.decrypt_tls12_chacha20_unprotect_protect",
     ]),
+    "C05": ("TLX.Props.OnCode.C05", [
+        "TLX.OnCode.C05.extract_server_frame_whole_records",
+        "TLX.OnCode.C05.extract_client_frame_whole_records",
+    ]),
     "C14": ("TLX.Props.OnCode.C14", [
         "TLX.OnCode.C14.split_cipher_suite_sound_complete",
         "TLX.OnCode.C14.cipher_suites_keys",
